@@ -7,3 +7,6 @@ unset GOSUMDB GONOSUMDB GONOSUMCHECK GOFLAGS_EXTRA
 export CARGO_NET_OFFLINE=true PIP_NO_INDEX=1
 # the tree under verification (registered commands always use /repo; development copies may point elsewhere)
 export VERIF_REPO="${VERIF_REPO:-/repo}"
+# evidence/<id>.json describes runs against /repo only; a development run against a scratch worktree
+# (seeded change, proposed repair) writes its evidence under .work/ instead
+if [ "$VERIF_REPO" = /repo ]; then export VERIF_EVIDENCE_DIR="$VERIF_ROOT/evidence"; else export VERIF_EVIDENCE_DIR="$VERIF_ROOT/.work/evidence-scratch"; fi
